@@ -339,7 +339,7 @@ def run(replay=None):
     })
     V.assumptions += [
         "operands are constructed with an absolute uncertainty (abse=); construction from rele= of a negative value is outside the quantifier",
-        "first-order bounds are required only for two uncertain positive operands whose interval does not reach zero, as the statement says",
+        "first-order bounds are required for two uncertain positive operands however large their relative uncertainty; only a divisor whose interval ends exactly at zero is unspecified",
         "power: only non-negativity is required (the statement gives no formula)",
         "tolerance rel 1e-9; table factors are the library's own",
     ]
